@@ -217,7 +217,16 @@ def store_jobs(tier, rnd):
                 e = c["e"]
                 if e.get("stale"):
                     continue        # calls through handles of vanished objects: best effort only, nothing to hold a fault variant to
-                vkinds = tuple(sorted({x[1] for x in e.get("packet", [])} | ({e["v"]} if "v" in e else set())))     # value tokens: lists / tables are serialised (more allocations, other failure paths)
+                # situation of the named item in the addressed container: does the item exist, does the container have a scalar
+                # loop, does that loop hold a packet (first scalar / further scalar / existing item take different paths)
+                situ = ()
+                if "name" in e and "cont" in e:
+                    cid = o.get("hcid", {}).get(e["cont"], 0)
+                    nm = e["name"].lower()
+                    ls = [l for l in o["s"]["loops"] if l["cid"] == cid and l["cif"] == e.get("cif")]
+                    sl = [l for l in ls if l["cat"] == ""]
+                    situ = (any(i["norm"] == nm for l in ls for i in l["items"]), bool(sl), bool(sl and sl[0]["last"] > 0))
+                vkinds = situ + tuple(sorted({x[1] for x in e.get("packet", [])} | ({e["v"]} if "v" in e else set())))     # value tokens: lists / tables are serialised (more allocations, other failure paths)
                 shape = (e["op"], e.get("rc"), c["same"], len(e.get("names", [])), len(e.get("packet", [])), bool(o["s"]["tx"].get(e.get("cif", "c1"))) if isinstance(o["s"]["tx"], dict) else False, vkinds)
                 classes[shape].append((o["h"], o["s"], e, c["s2"], c["same"]))
         cleanup(wd)
